@@ -163,7 +163,43 @@ func init() {
 		// ---- fmt / log / runtime ----
 		"fmt.Sprintf": hSprintf,
 		"fmt.Errorf": func(m *Machine, fr *frame, fn *ssa.Function, a []Value) Value {
+			// %w: the result is a *fmt.wrapError (message + wrapped error), so that Unwrap / errors.Is see the chain
+			if f, ok := a[0].(string); ok && strings.Count(f, "%w") == 1 {
+				args := a[1].(Slice)
+				k := strings.Count(f[:strings.Index(f, "%w")], "%") - 2*strings.Count(f[:strings.Index(f, "%w")], "%%")
+				if fp := m.P.Prog.ImportedPackage("fmt"); fp != nil && fp.Type("wrapError") != nil && k >= 0 && k < args.Len {
+					if wrapped, isErr := args.Arr.Elems[args.Off+k].(Iface); isErr && wrapped.T != nil {
+						msg := m.sprintf(fr, strings.Replace(f, "%w", "%v", 1), args)
+						cell := new(Value)
+						*cell = Struct{msg, wrapped}
+						return Iface{T: types.NewPointer(fp.Type("wrapError").Type()), V: cell}
+					}
+				}
+			}
 			return m.makeError(m.sprintf(fr, a[0], a[1].(Slice)))
+		},
+		// errors.Is / errors.Unwrap over the chain made by Unwrap() error methods (no Is methods, no multi-errors)
+		"errors.Unwrap": func(m *Machine, fr *frame, fn *ssa.Function, a []Value) Value {
+			next, _ := m.unwrapErr(fr, a[0].(Iface))
+			return next
+		},
+		"errors.Is": func(m *Machine, fr *frame, fn *ssa.Function, a []Value) Value {
+			err, target := a[0].(Iface), a[1].(Iface)
+			if err.T == nil || target.T == nil {
+				return m.C.BoolC(err.T == nil && target.T == nil)
+			}
+			var res T = m.C.False()
+			for depth := 0; depth < 16 && err.T != nil; depth++ {
+				if types.Identical(err.T, target.T) {
+					res = m.C.Or(res, m.equals(fr, err, target))
+				}
+				next, ok := m.unwrapErr(fr, err)
+				if !ok {
+					break
+				}
+				err = next
+			}
+			return res
 		},
 		"fmt.Sprint": func(m *Machine, fr *frame, fn *ssa.Function, a []Value) Value {
 			return m.sprintf(fr, nil, a[0].(Slice))
@@ -1763,6 +1799,27 @@ func (m *Machine) strConcat(a, b Value) Value {
 		return as + bs
 	}
 	return m.C.StrConcat(m.strTerm(a), m.strTerm(b))
+}
+
+// unwrapErr: the error returned by err's Unwrap() error method, if it has one
+func (m *Machine) unwrapErr(fr *frame, err Iface) (Iface, bool) {
+	if err.T == nil {
+		return Iface{}, false
+	}
+	sel := m.P.Prog.MethodSets.MethodSet(err.T).Lookup(nil, "Unwrap")
+	if sel == nil {
+		return Iface{}, false
+	}
+	sig, _ := sel.Type().(*types.Signature)
+	if sig == nil || sig.Params().Len() != 0 || sig.Results().Len() != 1 {
+		return Iface{}, false
+	}
+	fnv := m.P.Prog.MethodValue(sel)
+	if fnv == nil {
+		return Iface{}, false
+	}
+	res, ok := m.call(fnv, []Value{err.V}, fr, 0).(Iface)
+	return res, ok
 }
 
 var _ = math.Abs
